@@ -92,6 +92,7 @@ func VH_C10_C15_ArbitraryStream() {
 // {0, 1, 40, 41, 75}.
 func VH_C10_C15_LargeLimit() {
 	vh.MustReach("refused", "clean-eof", "error")
+	vh.AllocCap(16384 + 32 + 512) // C10: the record buffer is bounded by the caller's limit, not by the stream
 	draft03 := vh.Choose(2) == 1
 	lens := []int{0, 1, 40, 41, 75}
 	L := lens[vh.Choose(len(lens))]
